@@ -22,6 +22,7 @@ EXPLANATION = (
     'functions excepted); D6 lanes: n_queue is a power of two and coprime with the stride (witnesses).  Linearizability, '
     'per-producer order and the capacity bound as history properties are NOT decided.')
 EXPLANATION += ' Added after the seeded-change rounds: ' + 'D5: the bounded-queue wake-up predicate is downward closed (shared with C02); D7: every ordering comparison of a counter difference (tail - head, ticket - capacity; followed through locals and lambda captures) is evaluated in a signed type.'
+EXPLANATION += ' Added in the third session (round-3 seeds and the findings they led to): ' + 'D1 also: a claimed ticket is never handed back by decrementing its counter (violated by the aborted pop: known finding); D3 also: every consumed ticket - item or invalid entry - goes through the pop finalizer, pop() never writes head_counter itself, a page pointer taken from head_page / tail_page is dereferenced only after is_valid_page(); D6 also: infinite_capacity is a huge positive constant (witness).'
 ASSUMPTIONS = ['raii_guard / try_call idiom model (checked in C03-D5)', 'instantiations: concurrent_queue<int|string>, concurrent_bounded_queue<int|string>']
 ND = ['linearizability', 'per-producer FIFO order', 'capacity bound as a history property']
 LOCKCLS = lambda c: c.endswith('scoped_lock')   # noqa: E731
